@@ -554,6 +554,12 @@ func relevantPhi(phi *ssa.Phi, depth int) bool {
 			switch x := r.(type) {
 			case *ssa.Return, *ssa.Store:
 				return true
+			case ssa.CallInstruction:
+				for _, a := range x.Common().Args {
+					if a == v {
+						return true // handed to a call: which value it is on this path matters to the callee
+					}
+				}
 			case *ssa.Phi:
 				if x != phi && uses(x, d+1) {
 					return true
